@@ -82,6 +82,24 @@ impl LruCache<K, V> {
     @@LruCache::remove@@
 }
 
+
+// ================= QueryCache: the two plan caches + statistics =================
+// E2: atomic counters, sequentially
+fn fetch_add_u64(a: &mut u64, v: u64) -> (o: u64) ensures o == *old(a) { let o = *a; *a = o.wrapping_add(v); o }
+@@QueryCache@@
+impl QueryCache {
+    @@QueryCache::get_parsed@@
+
+    @@QueryCache::put_parsed@@
+
+    @@QueryCache::get_optimized@@
+
+    @@QueryCache::put_optimized@@
+
+    @@QueryCache::invalidate@@
+
+    @@QueryCache::clear@@
+}
 } // verus!
 fn main() {}
 '''
@@ -163,5 +181,30 @@ proof {
     f.body_start('proof { axiom_k_keys(); }\nlet ghost E0 = self.entries@;')
     L = f.loop('in 0..self.access_order.len()').kind('for')
     L.invariants(*[(n, t % dict(i='i__p1', p='pos__1', frame='self.access_order@.len() == old(self).access_order@.len() && self.entries@ == E0')) for n, t in POS])
-    u.not_covered += ['QueryCache (Mutex<LruCache>, statistics counters), CachingQueryProcessor', 'CacheKey::new / normalize_query (strings; bounded Kani unit CACHE)']
+    # ---- QueryCache ----
+    qc = u.item(SRC, 'struct', 'QueryCache').D1(keep_derive=set()).V1()
+    qc.resub('E3', r'Mutex<LruCache<CacheKey, LogicalPlan>>', 'LruCache<K, V>', count=2)
+    qc.resub('E2', r'AtomicU64', 'u64', count=4)
+    def qsubs(f, mutable=True):
+        f.resub_opt('E1', r'&CacheKey\b', '&K'); f.resub_opt('E1', r'\bCacheKey\b', 'K'); f.resub_opt('E1', r'\bLogicalPlan\b', 'V')
+        f.resub_opt('E3', r'\.lock\(\)', '')
+        f.resub_opt('E2', r'self\.(\w+)\.fetch_add\(1, Ordering::Relaxed\)', r'fetch_add_u64(&mut self.\1, 1)')
+        f.resub('E3', r'\(&self', '(&mut self')
+        return f
+    for kind in ('parsed', 'optimized'):
+        other = 'optimized' if kind == 'parsed' else 'parsed'
+        f = qsubs(u.method(SRC, 'QueryCache', 'get_' + kind).D1().ret('r'))
+        f.requires('counter_room', 'old(self).%s_cache.counters_ok()' % kind)
+        f.ensures('answers_from_this_cache_only', 'r == (if old(self).enabled && old(self).%s_cache.view().contains_key(*key) { Some(old(self).%s_cache.view()[*key]) } else { None::<V> })' % (kind, kind))
+        f.ensures('plans_unchanged', 'final(self).%s_cache.view() =~= old(self).%s_cache.view() && final(self).%s_cache == old(self).%s_cache && final(self).enabled == old(self).enabled' % (kind, kind, other, other))
+        f = qsubs(u.method(SRC, 'QueryCache', 'put_' + kind).D1())
+        f.ensures('stores_the_plan', 'old(self).enabled ==> final(self).%s_cache.view().contains_key(key) && final(self).%s_cache.view()[key] == plan' % (kind, kind))
+        f.ensures('other_plans_untouched', 'forall|k: K| #![trigger final(self).%s_cache.view().contains_key(k)] k != key && final(self).%s_cache.view().contains_key(k) ==> old(self).%s_cache.view().contains_key(k) && final(self).%s_cache.view()[k] == old(self).%s_cache.view()[k]' % (kind, kind, kind, kind, kind))
+        f.ensures('disabled_stores_nothing', '!old(self).enabled ==> final(self).%s_cache == old(self).%s_cache' % (kind, kind))
+        f.ensures('frame', 'final(self).%s_cache == old(self).%s_cache && final(self).enabled == old(self).enabled' % (other, other))
+    f = qsubs(u.method(SRC, 'QueryCache', 'invalidate').D1())
+    f.ensures('both_caches_forget_the_key', 'final(self).parsed_cache.view() =~= old(self).parsed_cache.view().remove(*key) && final(self).optimized_cache.view() =~= old(self).optimized_cache.view().remove(*key)')
+    f = qsubs(u.method(SRC, 'QueryCache', 'clear').D1())
+    f.ensures('both_caches_empty', 'final(self).parsed_cache.view() =~= Map::<K, V>::empty() && final(self).optimized_cache.view() =~= Map::<K, V>::empty()')
+    u.not_covered += ['QueryCache::{new, disabled, stats, reset_stats}, CachingQueryProcessor, how Session uses the cache', 'CacheKey::new / normalize_query (strings; bounded Kani unit CACHE)']
     return u
